@@ -992,6 +992,28 @@ class Visitor(ast.NodeVisitor):
 
         return generator_expr_func(**self._name_to_value)
 
+    def _visit_children_of_comprehension(
+        self, children: List[ast.expr], generators: List[ast.comprehension]
+    ) -> None:
+        """
+        Visit the parts of a comprehension to re-compute the values unrelated to its targets.
+
+        The comprehension itself is computed by re-compilation, so these visits serve only the representation
+        of the values. Python evaluates the parts only if the iteration reaches them (*e.g.*, never for an empty
+        iterable or if the filter does not hold), so they might not even be defined. Hence a part which can not be
+        re-computed is simply left out.
+        """
+        parts = list(children)
+        for generator in generators:
+            parts.append(generator.iter)
+            parts.extend(generator.ifs)
+
+        for part in parts:
+            try:
+                self.visit(part)
+            except Exception:  # pylint: disable=broad-except
+                pass
+
     def visit_GeneratorExp(self, node: ast.GeneratorExp) -> Any:
         """Compile the generator expression as a function and call it."""
         # NOTE ABOUT PLACEHOLDERS AND RE-COMPUTATION:
@@ -1024,13 +1046,9 @@ class Visitor(ast.NodeVisitor):
         ):
             self._name_to_value[target_name] = PLACEHOLDER
 
-        self.visit(node.elt)
-
-        for generator in node.generators:
-            self.visit(generator.iter)
-
-            for generator_if in generator.ifs:
-                self.visit(generator_if)
+        self._visit_children_of_comprehension(
+            children=[node.elt], generators=node.generators
+        )
 
         self._name_to_value = old_name_to_value
 
@@ -1051,13 +1069,9 @@ class Visitor(ast.NodeVisitor):
         ):
             self._name_to_value[target_name] = PLACEHOLDER
 
-        self.visit(node.elt)
-
-        for generator in node.generators:
-            self.visit(generator.iter)
-
-            for generator_if in generator.ifs:
-                self.visit(generator_if)
+        self._visit_children_of_comprehension(
+            children=[node.elt], generators=node.generators
+        )
 
         self._name_to_value = old_name_to_value
 
@@ -1080,13 +1094,9 @@ class Visitor(ast.NodeVisitor):
         ):
             self._name_to_value[target_name] = PLACEHOLDER
 
-        self.visit(node.elt)
-
-        for generator in node.generators:
-            self.visit(generator.iter)
-
-            for generator_if in generator.ifs:
-                self.visit(generator_if)
+        self._visit_children_of_comprehension(
+            children=[node.elt], generators=node.generators
+        )
 
         self._name_to_value = old_name_to_value
 
@@ -1109,14 +1119,9 @@ class Visitor(ast.NodeVisitor):
         ):
             self._name_to_value[target_name] = PLACEHOLDER
 
-        self.visit(node.key)
-        self.visit(node.value)
-
-        for generator in node.generators:
-            self.visit(generator.iter)
-
-            for generator_if in generator.ifs:
-                self.visit(generator_if)
+        self._visit_children_of_comprehension(
+            children=[node.key, node.value], generators=node.generators
+        )
 
         self._name_to_value = old_name_to_value
 
